@@ -2170,6 +2170,13 @@ class Deb822NoDuplicateFieldsParagraphElement(Deb822ParagraphElement):
             # way
             key = value.field_name
         original_value = self._kvpair_elements.get(key)
+        if original_value is None:
+            # The new field is placed after the (so far) last field, which lacks its
+            # newline when it is the last line of a file without a final newline.
+            for last_field_name in reversed(self._kvpair_order):
+                last_kvpair = self._kvpair_elements[cast('_strI', last_field_name)]
+                last_kvpair.value_element.add_final_newline_if_missing()
+                break
         self._kvpair_elements[key] = value
         self._kvpair_order.append(key)
         if original_value is not None:
@@ -2456,6 +2463,11 @@ class Deb822DuplicateFieldsParagraphElement(Deb822ParagraphElement):
                       " in the first place.  Please index-less key or ({key}, 0) if you" \
                       " want to add the field."
                 raise KeyError(msg.format(key=key, index=index))
+            # The new field is placed after the (so far) last field, which lacks its
+            # newline when it is the last line of a file without a final newline.
+            last_kvpair = self._kvpair_order.tail
+            if last_kvpair is not None:
+                last_kvpair.value_element.add_final_newline_if_missing()
             node = self._kvpair_order.append(value)
             if key not in self._kvpair_elements:
                 self._kvpair_elements[key] = [node]
